@@ -21,7 +21,7 @@ LEVEL_TEXT = ('every state reachable by at most d commands (quick d=5, thorough 
 LEVEL_NOTE = ('exhaustive to the stated depth only; canonicalisation drops directory/.trashinfo mtimes and inode numbers, which no trash-cli code path reads (grep st_mtime|st_ino is empty); '
               'trusted: R3/R4/R5 reference models')
 RULE = ('alphabet: put of 6 entries (re-created with path-determined content when absent; four of them share the base name "a" - one of these is a dangling symlink -, one is a directory, two live on /mnt/v1, one of them with a percent escape and a trailing blank in its name), restore with '
-        '(scope, reply) in {(/,0),(/home/u/w,0),(/,0-1),(/mnt/v1,0)}, rm {a,*,/home/u/w/*}, empty, empty 1, empty 0 (entries of the current day are exactly at the limit and stay), tick (+1 day, at most 2); BFS to the depth bound; distinct = transition outcome labels')
+        '(scope, reply) in {(/,0),(/home/u/w,0),(/,0-1),(/mnt/v1,0)}, rm {a,*,/home/u/w/*}, empty -i answered y, empty 1, empty 0 (entries of the current day are exactly at the limit and stay), tick (+1 day, at most 2); BFS to the depth bound; distinct = transition outcome labels')
 DEPTH = {'quick': 5, 'thorough': 6}
 STATE_CAP = {'quick': 60000, 'thorough': 400000}
 BASE = '2024-03-01T12:00:00'
@@ -179,7 +179,8 @@ def apply(sb, model, action):
         label = 'rm(%d removed)' % (len(bag) - len(bag2))
     elif action in ('empty', 'empty:1', 'empty:0'):
         days = None if action == 'empty' else int(action.split(':')[1])
-        r = sb.run(['trash-empty'] + ([] if days is None else [str(days)]), env=ENV, cwd='/', now=now)
+        # the unconditional purge goes through the interactive guard (-i, answered y), the DAYS purges run unattended
+        r = sb.run(['trash-empty'] + (['-i'] if days is None else [str(days)]), env=ENV, cwd='/', now=now, stdin='y\n' if days is None else None)
         execs += 1
         bag2 = R3.empty(bag, now, days)
         label = 'empty%s(%d removed)' % ('' if days is None else str(days), len(bag) - len(bag2))
